@@ -2,7 +2,7 @@
 from __future__ import annotations
 from ..derivcommon import run_derivative_property
 
-ROUTES = ["Partial.at", "Partial.at(name)", "Derivative.at", "Derivative.at(number)"]
+ROUTES = ["Partial.at", "Partial.at(name)", "Derivative.at", "Derivative.at(number)", "Partial.at(kept object)"]
 
 
 def check(rep):
